@@ -11,6 +11,7 @@ Inductive op :=
 | OForceTask (chain : nat) (name : str) (delete : bool)
 | OForceChain (chain : nat) (names : list str) (recompute delete : bool)
 | OHasData (chain : nat) (name : str)
+| OForceMulti (chains : list nat) (names : list str) (recompute delete : bool)   (* MultiChain.force *)
 | OFlags (chain : nat)                          (* is_forced and has_data of every task of a chain *)
 | ORestart
 | OSetFail (slugs : list str).
@@ -63,6 +64,16 @@ Section History.
         end
     end.
 
+  (* Chain.force(names, recompute, delete_data) on the chain c *)
+  Definition force_chain (h : hstate) (w : Eval.world) (c : list (str * nat)) (names : list str) (recompute delete : bool)
+    : Eval.world :=
+    let roots := flat_map (fun n => match dget n c with Some i => [i] | None => [] end) names in
+    let forced := closure_from (input_edge (w_objs w)) (chain_ids c) (nodup Nat.eq_dec roots) in
+    let w1 := fold_left (force_obj delete) forced w in
+    if recompute
+    then fold_left (fun wa i => fst (eval classes_of_world run (depth h) wa i)) forced w1
+    else w1.
+
   Definition listing (st : store) : value :=
     VList (map (fun e => VStr (fst e ++ match snd e with FDir => lit "/" | _ => [] end))
                (isort (fun a b => str_leb (fst a) (fst b)) st)).
@@ -103,15 +114,22 @@ Section History.
     | OForceChain chain names recompute delete =>
         match nth_error (h_chains h) chain with
         | None => (h, err)
-        | Some c =>
-            let roots := flat_map (fun n => match dget n c with Some i => [i] | None => [] end) names in
-            let forced := closure_from (input_edge (w_objs w)) (chain_ids c) (nodup Nat.eq_dec roots) in
-            let w1 := fold_left (force_obj delete) forced w in
-            let w2 := if recompute
-                      then fold_left (fun wa i => fst (eval classes_of_world run (depth h) wa i)) forced w1
-                      else w1 in
-            ({| h_world := w2; h_chains := h_chains h |}, ok VNone)
+        | Some c => ({| h_world := force_chain h w c names recompute delete; h_chains := h_chains h |}, ok VNone)
         end
+    | OForceMulti chains names recompute delete =>
+        (* chain after chain; a member that does not know a named task raises and stops the fan-out *)
+        let '(w', good) :=
+          fold_left (fun (acc : Eval.world * bool) ci =>
+                       let '(wa, good) := acc in
+                       if good then
+                         match nth_error (h_chains h) ci with
+                         | Some c => if forallb (fun n => dhas n c) names
+                                     then (force_chain h wa c names recompute delete, true)
+                                     else (wa, false)
+                         | None => (wa, false)
+                         end
+                       else (wa, false)) chains (w, true) in
+        ({| h_world := w'; h_chains := h_chains h |}, if good then ok VNone else err)
     | OHasData chain name =>
         match oid_of h chain name with
         | None => (h, err)
@@ -176,7 +194,7 @@ Section History.
         VDict [ (lit "out", out);
                 (lit "runs", VList (map VStr
                    (let rs := map (fun sk => fst sk ++ lit "#" ++ snd sk) delta in
-                    match o with OForceChain _ _ _ _ => isort str_leb rs | _ => rs end)));
+                    match o with OForceChain _ _ _ _ | OForceMulti _ _ _ _ => isort str_leb rs | _ => rs end)));
                 (lit "files", listing (w_store (h_world h'))) ] :: run_history h' r
     end.
 End History.
